@@ -92,7 +92,7 @@ func (p *Pat) atoms(out *[]atom) {
 		*out = append(*out, litAtom(p.R, p.Spell, false))
 	case "any":
 		raw(".")
-	case "cls", "posix":
+	case "cls", "posix", "uni":
 		raw(p.Name)
 	case "br":
 		raw("[")
@@ -605,4 +605,64 @@ func DiffDFA(d1, d2 *auto.DFA) (string, bool) {
 		}
 	}
 	return "", false
+}
+
+// Positions is the number of character positions the followpos construction creates for the pattern
+// (every member of a character set is one position, quantifier ranges duplicate their operand).
+func Positions(p *Pat) int {
+	switch p.K {
+	case "lit", "any", "cls", "posix", "br":
+		return len(SetOf(p))
+	case "uni":
+		return 700
+	case "q":
+		n := p.Min
+		if p.Max < 0 {
+			n++
+		} else {
+			n += p.Max - p.Min
+		}
+		return n * Positions(p.Subs[0])
+	}
+	n := 0
+	for _, s := range p.Subs {
+		n += Positions(s)
+	}
+	return n
+}
+
+// LimitPositions replaces large character sets by a literal until the pattern has at most max positions
+// (a deterministic size bound for the quadratic followpos construction; the structure of the pattern is kept).
+func LimitPositions(p *Pat, max int) int {
+	replaced := 0
+	for Positions(p) > max {
+		var big *Pat
+		bigN := 1
+		p.Walk(func(q *Pat) {
+			switch q.K {
+			case "any", "cls", "posix", "br", "uni":
+				n := 700
+				if q.K != "uni" {
+					n = len(SetOf(q))
+				}
+				if n > bigN {
+					big, bigN = q, n
+				}
+			}
+		})
+		if big == nil {
+			break
+		}
+		*big = Pat{K: "lit", R: 'a'}
+		replaced++
+	}
+	return replaced
+}
+
+// WalkAtoms visits the pattern's nodes without descending into bracket items.
+func (p *Pat) WalkAtoms(f func(*Pat)) {
+	f(p)
+	for _, s := range p.Subs {
+		s.WalkAtoms(f)
+	}
 }
